@@ -166,6 +166,20 @@ def test_determinism(n):
             r = driver.run_fresh(p, PROPS[p['world']], driver.load_known(), hashseed=hs)
             if r['digest'] != x['digest']:
                 fail(f'transcript of world {p["world"]} run {p["run"]} depends on the harness PYTHONHASHSEED ({hs})')
+    if n >= 20:
+        # large sample: every plan again in fresh interpreters under two other hash seeds, with ASLR on and
+        # (when permitted) off; oracles off, transcripts only
+        from sim import world_xproc, seams
+        for k, p in enumerate(plans):
+            p['xid'] = k
+        base = world_xproc.run_under(plans, 0, parallel=5)
+        jobs = [(3, False), (4242424242, False)] + ([(0, True)] if seams.setarch_available() else [])
+        for hs, sa in jobs:
+            other = world_xproc.run_under(plans, hs, parallel=5, setarch=sa)
+            for p, x, y in zip(plans, base, other):
+                if x['digest'] != y['digest']:
+                    fail(f'world {p["world"]} run {p["run"]} (simset={p["config"].get("simset")}): transcript differs '
+                         f'between PYTHONHASHSEED 0 and {hs} (setarch={sa})')
     return len(plans)
 
 
